@@ -47,6 +47,12 @@ class ParserEffects:
             statement_exec.append(ast.unparse(c))
         ctx.prove(z3.BoolVal(not statement_exec), 'parse_model_does_not_execute_statement_text', 'effects', assume_after=False,
                   note='; '.join(statement_exec))
+        # whatever that exec does, name bindings of the executed text must not land in a live namespace: inside a function, exec(text) alone
+        # binds into a throw-away snapshot of the locals; an explicit globals()/module dictionary/live mapping would make them permanent
+        def throwaway(a):
+            return (isinstance(a, ast.Dict) and not a.keys) or (isinstance(a, ast.Call) and isinstance(a.func, ast.Name) and a.func.id == 'dict' and not a.args and not a.keywords)
+        live = [ast.unparse(c) for c in ex if c.keywords or not all(throwaway(a) for a in c.args[1:])]
+        ctx.prove(z3.BoolVal(not live), 'name_bindings_of_executed_statement_text_cannot_reach_a_live_namespace', 'effects', assume_after=False, note='; '.join(live))
         # handlers around that exec: which exception classes can escape
         escaping = True
         for n in ast.walk(pm.node):
